@@ -1013,11 +1013,11 @@ func (m *Manager) recoverFromWAL() error {
 
 	// Add recovered memtables to the pool
 	for i, memTable := range memTables {
-		if i == len(memTables)-1 {
-			// The last memtable becomes the active one
-			m.memTablePool.SetActiveMemTable(memTable)
-		} else {
-			// Previous memtables become immutable
+		// The last memtable becomes the active one; each earlier one is pushed to
+		// the pool's immutable list by the next call, so that reads see it
+		m.memTablePool.SetActiveMemTable(memTable)
+		if i < len(memTables)-1 {
+			// Previous memtables become immutable and wait for a flush
 			memTable.SetImmutable()
 			m.immutableMTs = append(m.immutableMTs, memTable)
 		}
